@@ -440,6 +440,8 @@ func lemmaObligation(eng *Engine, lm *Lemma) (*Obligation, error) {
 	for _, r := range rq {
 		e.facts = append(e.facts, r)
 	}
+	e.noFacts = false
+	e.ghostDecls()
 	o := &Obligation{Name: "lemma#" + lm.Name, Kind: "lemma", Props: lm.Props, Func: "lemma " + lm.Name, Pos: fmt.Sprintf("%s:%d", strings.TrimPrefix(lm.File, "/repo/"), lm.Line),
 		Desc: lm.Src, NFacts: len(e.facts), Goal: and(en...), fe: e}
 	return o, nil
@@ -492,7 +494,16 @@ func cmdDump(argv []string) int {
 		e := eng.newFEnc(f, *prop)
 		e.safety = *safety
 		e.checked = e.fc != nil && hasFunctional(e.fc)
-		e.run()
+		func() {
+			defer func() {
+				if p := recover(); p != nil {
+					buf := make([]byte, 2048)
+					n := runtime.Stack(buf, false)
+					fmt.Printf("PANIC in %s: %v\n%s\n", shortFn(f), p, buf[:n])
+				}
+			}()
+			e.run()
+		}()
 		fmt.Printf("== %s: %d obligations, %d facts, %d consts; contract=%v\n", shortFn(f), len(e.obls), len(e.facts), len(e.consts), e.fc != nil)
 		for _, u := range e.unsupported {
 			fmt.Println("   UNSUPPORTED:", u)
